@@ -47,8 +47,21 @@ def unescape (s : String) : String :=
 
 /-! ### `str()` and `repr()` -/
 
+/-- one character inside `repr(str)` quoted with `q` -/
+def reprChar (q : Char) (c : Char) : List Char :=
+  if c = '\\' then ['\\', '\\']
+  else if c = q then ['\\', q]
+  else if c = '\n' then ['\\', 'n']
+  else if c = '\r' then ['\\', 'r']
+  else if c = '\t' then ['\\', 't']
+  else [c]
+
+/-- `repr(s)` for a `str` (printable input): single quotes, unless the text holds a single quote and no double quote;
+    backslash, the chosen quote, newline, carriage return and tab are escaped -/
 def reprStr (s : String) : String :=
-  "'" ++ replaceAll "\\" "\\\\" s ++ "'"
+  let cs := s.toList
+  let q := if cs.contains '\'' && !cs.contains '"' then '"' else '\''
+  String.ofList (q :: (cs.flatMap (reprChar q)) ++ [q])
 
 def pyInt (i : Int) : String := toString i
 
